@@ -75,8 +75,11 @@ def equiv_amount_cases(h, q, unit, prefix=""):
         for i, (g, k, v) in enumerate(chain):
             out.append((f"converter-{i}-value", z3.And(base, g, k == 1),
                         "value", v))
+            out.append((f"converter-{i}-cannot-convert",
+                        z3.And(base, g, k == 2), "raises",
+                        "UnitConversionError"))
             out.append((f"converter-{i}-raises",
-                        z3.And(base, g, k != 0, k != 1), "raises",
+                        z3.And(base, g, k != 0, k != 1, k != 2), "raises",
                         "ConverterRaised"))
         out.append(("no-converter-answers", z3.And(base, all_none), "none",
                     None))
